@@ -169,7 +169,8 @@ pub(super) fn same_stack(a: &Vec<Value>, b: &Vec<Value>) -> bool {
 
 // ASCII string of symbolic length <= 3 with symbolic bytes; returns the bytes too.
 pub(super) fn mk_string(t: &mut VmGreenThread, bytes: [u8; 3], len: usize) -> Value {
-    let mut st = String::new();
+    // one buffer of fixed capacity: only the length is symbolic, not the buffer identity
+    let mut st = String::with_capacity(4);
     if len > 0 {
         st.push(bytes[0] as char);
     }
